@@ -496,3 +496,18 @@ Example C05_conforms_unwrap_root_needs_wt :
   encode Ex xs (q "BarList") m = ROk (JArr [UnwrapRootExamples.leaf1_json]) /\
   (exists w, to_json Ex xs (q "BarList") m = RUnm w).
 Proof. exact UnwrapRootExamples.conforms_unwrap_root_needs_wt. Qed.
+
+(* ---- appended by P12_repair ---- *)
+From SebufProofs Require OneofExamples.
+
+(* response direction, flattened discriminated oneof: NaN / Infinity as an ELEMENT of a repeated float field (or a value of
+   a map) of the variant makes json.Marshal(inner) fail, the error is swallowed, and the server sends the discriminator
+   only.  defects_C05 covers it (CodecCases.reflect_differs looks inside lists and maps; confirmed on the emitted code,
+   catalogue package cxoneofgaps) *)
+Example C05_flat_variant_nonfinite_element :
+  let m := [(s "fl", FM [(s "xs", FL [FS (VFloat 9221120237041090561)]); (s "name", vstr "n")])] in
+  defects_C05 OneofExamples.fs (q "FlatG") m = [D5FlatOneofChild; D5FlattenChild] /\
+  encode Ex OneofExamples.fs (q "FlatG") m = ROk (JObj [(s "kind", JStr (s "fl"))]) /\
+  to_json Ex OneofExamples.fs (q "FlatG") m
+    = ROk (JObj [(s "kind", JStr (s "fl")); (s "xs", JArr [JStr (s "NaN")]); (s "name", JStr (s "n"))]).
+Proof. exact OneofExamples.c05_flat_variant_nonfinite_element. Qed.
